@@ -47,19 +47,4 @@ TsValid(s, n) == ZLe(MinTsSeconds, s) /\ ZLe(s, MaxTsSeconds) /\ ~n.neg /\ ZLe(n
 AsTimeU(s, n) == ZAdd(s, ZFloor10(n, E9))
 AsTimeNs(s, n) == ZMod10(n, E9)
 
-\* ---- what the specification demands of one case
-Expect(e) ==
-  CASE e.op = "dur" ->
-         LET s == ZOfChars(e.s)  n == ZOfChars(e.n)  v == DurValid(s, n) IN
-         [d |-> CharsOfZ(AsDur(s, n)), valid |-> v, cv |-> v]
-    [] e.op = "durnew" ->
-         LET d == ZOfChars(e.d)  x == DurNew(d) IN
-         [s |-> CharsOfZ(x.s), n |-> CharsOfZ(x.n), back |-> e.d, valid |-> TRUE]
-    [] e.op = "ts" ->
-         LET s == ZOfChars(e.s)  n == ZOfChars(e.n)  v == TsValid(s, n)  u == AsTimeU(s, n) IN
-         [valid |-> v, cv |-> v, utc |-> TRUE] @@
-         (IF InInt64(u) THEN [u |-> CharsOfZ(u), ns |-> CharsOfZ(AsTimeNs(s, n)), back |-> CharsOfZ(u)] ELSE [utc |-> TRUE])
-    [] e.op = "tsnew" ->
-         LET u == ZOfChars(e.u)  ns == ZOfChars(e.ns) IN
-         [s |-> e.u, n |-> e.ns, eq |-> TRUE, valid |-> TsValid(u, ns)]
 =============================================================================
